@@ -378,7 +378,7 @@ func (c *Ctx) idFromRequest(v ssa.Value, depth int) (bool, string) {
 		// parameter of a function used as a value (the registrar is passed as chanOut): check dynamic call sites in the dispatcher
 		if c.R.FnDisp != nil {
 			okAll, n := true, 0
-			allInstrs(c.R.FnDisp, func(in ssa.Instruction) {
+			c.P.coneInstrs(c.R.FnDisp, func(in ssa.Instruction) {
 				if c.isChanRegistrarCall(in) {
 					n++
 					args := in.(*ssa.Call).Common().Args
@@ -408,10 +408,10 @@ func (c *Ctx) idFromRequest(v ssa.Value, depth int) (bool, string) {
 	return false, ""
 }
 
-// readerRules: handleReader — R09.4 (reader side) and R09.6.
-func (c *Ctx) readerRules() {
+// readerEntry: the HTTP request reader: the outermost function that reads the body through
+// io.LimitReader and (itself or through helpers) reaches the dispatcher.
+func (c *Ctx) readerEntry() *ssa.Function {
 	p, r := c.P, c.R
-	// the reader: root function calling io.LimitReader (same as C10) and the dispatcher
 	var rd *ssa.Function
 	for _, fn := range p.Funcs {
 		if pkgOf(fn) != p.Root.Pkg || fn.Parent() != nil {
@@ -419,31 +419,112 @@ func (c *Ctx) readerRules() {
 		}
 		hasLim, hasDisp := false, false
 		allInstrs(fn, func(in ssa.Instruction) {
-			if ci, ok := in.(*ssa.Call); ok {
-				if calleeName(ci) == "io.LimitReader" {
-					hasLim = true
-				}
-				if staticCallee(ci) == r.FnDisp {
-					hasDisp = true
-				}
+			if ci, ok := in.(*ssa.Call); ok && calleeName(ci) == "io.LimitReader" {
+				hasLim = true
 			}
 		})
-		if hasLim && hasDisp {
+		if !hasLim {
+			continue
+		}
+		for _, g := range c.region(fn) {
+			allInstrsRaw(g, func(in ssa.Instruction) {
+				if ci, ok := in.(*ssa.Call); ok && p.unbound(staticCallee(ci)) == r.FnDisp {
+					hasDisp = true
+				}
+			})
+		}
+		if hasDisp {
 			rd = fn
 		}
 	}
+	return rd
+}
+
+// region: the functions making up the activity that starts at fn: synchronous callees
+// (not descending into activity roots such as the dispatcher), their function literals,
+// and functions whose values are created there (bound methods, named functions).
+func (c *Ctx) region(fn *ssa.Function) []*ssa.Function {
+	p := c.P
+	var out []*ssa.Function
+	seen := map[*ssa.Function]bool{}
+	var visit func(f *ssa.Function, d int)
+	visit = func(f *ssa.Function, d int) {
+		if f == nil || seen[f] || d > 2*ipMaxDepth || !p.allFns[f] || len(f.Blocks) == 0 {
+			return
+		}
+		if f != fn && p.roots != nil && p.roots[f] {
+			return
+		}
+		seen[f] = true
+		out = append(out, f)
+		for _, a := range f.AnonFuncs {
+			visit(a, d+1)
+		}
+		allInstrsRaw(f, func(in ssa.Instruction) {
+			if g := p.syncCallee(in); g != nil {
+				visit(g, d+1)
+			}
+			if mc, ok := in.(*ssa.MakeClosure); ok {
+				if g, ok := mc.Fn.(*ssa.Function); ok {
+					visit(p.unbound(g), d+1)
+				}
+			}
+		})
+	}
+	visit(fn, 0)
+	return out
+}
+
+// inLoopIP: the instruction can be executed again within its activity (it lies in a loop,
+// or in a helper called from one).
+func inLoopIP(in ssa.Instruction) bool {
+	return reachFromUp(in, func(x ssa.Instruction) bool { return x == in }, nil) != nil
+}
+
+// locKey: abstract identity of the variable behind an address: the struct field, or the
+// (captured) local.
+func (c *Ctx) locKey(addr ssa.Value) interface{} {
+	if fa, ok := addr.(*ssa.FieldAddr); ok {
+		return fieldOfAddr(fa)
+	}
+	return c.P.canonVar(addr)
+}
+
+// readerRules: the HTTP reader — R09.4 (reader side) and R09.6.
+func (c *Ctx) readerRules() {
+	p, r := c.P, c.R
+	rd := c.readerEntry()
 	if !c.need("R09.6", "HTTP request reader", rd != nil) {
 		return
 	}
-	headers := loopHeaders(rd)
-	crossesLoop := func(in ssa.Instruction) bool { return headers[in.Block()] && in == in.Block().Instrs[0] }
-	isDisp := func(in ssa.Instruction) bool { return isCallTo(in, r.FnDisp) }
-	allInstrs(rd, func(in ssa.Instruction) {
+	reg := c.region(rd)
+	inReg := map[*ssa.Function]bool{}
+	for _, f := range reg {
+		inReg[f] = true
+	}
+	hdrs := map[*ssa.Function]map[*ssa.BasicBlock]bool{}
+	crossesLoop := func(in ssa.Instruction) bool {
+		f := in.Parent()
+		if hdrs[f] == nil {
+			hdrs[f] = loopHeaders(f)
+		}
+		return hdrs[f][in.Block()] && in == in.Block().Instrs[0]
+	}
+	isDisp := func(in ssa.Instruction) bool {
+		ci, ok := in.(*ssa.Call)
+		return ok && p.unbound(staticCallee(ci)) == r.FnDisp
+	}
+	regInstrs := func(f func(ssa.Instruction)) {
+		for _, g := range reg {
+			allInstrsRaw(g, f)
+		}
+	}
+	regInstrs(func(in ssa.Instruction) {
 		if !c.isErrFnCall(in) {
 			return
 		}
-		construct := fmt.Sprintf("%s: protocol error reply", fname(rd))
-		if w := reachFrom(in, isDisp, crossesLoop); w != nil {
+		construct := fmt.Sprintf("%s: protocol error reply", fname(in.Parent()))
+		if w := reachFromUp(in, isDisp, crossesLoop); w != nil {
 			c.bad("R09.4", construct, c.ipos(w), fmt.Sprintf("after the error reply at %s the same request is still dispatched to a handler", c.ipos(in)))
 		} else {
 			c.ok("R09.4", construct, c.ipos(in), "dispatch unreachable for the rejected request")
@@ -452,26 +533,23 @@ func (c *Ctx) readerRules() {
 
 	// ---- R09.6
 	rule := "R09.6"
-	// literal writes in rd and its closures
 	type lw struct {
-		in  ssa.Instruction
-		s   string
-		fn  *ssa.Function
+		in ssa.Instruction
+		s  string
+		fn *ssa.Function
 	}
 	var writes []lw
-	for _, fn := range withAnon(rd) {
-		allInstrs(fn, func(in ssa.Instruction) {
-			if ci, ok := in.(ssa.CallInstruction); ok {
-				if s, ok := constWriteArg(ci); ok && (s == "[" || s == "," || s == "]") {
-					writes = append(writes, lw{in, s, fn})
-				}
+	regInstrs(func(in ssa.Instruction) {
+		if ci, ok := in.(ssa.CallInstruction); ok {
+			if s, ok := constWriteArg(ci); ok && (s == "[" || s == "," || s == "]") {
+				writes = append(writes, lw{in, s, in.Parent()})
 			}
-		})
-	}
-	// the batch loop: loop in rd containing a dispatcher call
+		}
+	})
+	// the batch loop: dispatcher calls that are executed repeatedly
 	var loopDisp []ssa.Instruction
-	allInstrs(rd, func(in ssa.Instruction) {
-		if isDisp(in) && inLoop(in.Block()) {
+	regInstrs(func(in ssa.Instruction) {
+		if isDisp(in) && inLoopIP(in) {
 			loopDisp = append(loopDisp, in)
 		}
 	})
@@ -479,10 +557,10 @@ func (c *Ctx) readerRules() {
 		c.und(rule, fname(rd)+": batch loop", p.pos(rd.Pos()), "no dispatcher call inside a loop: batch handling not recognised")
 		return
 	}
-	// framing provider: closure of rd with a func(io.Writer) parameter writing "[" and ","
+	// framing provider: a function taking the element writer callback and writing "[" and ","
 	var prov *ssa.Function
 	for _, w := range writes {
-		if w.fn != rd && (w.s == "[" || w.s == ",") && len(w.fn.Params) == 1 && isWriterCallbackType(w.fn.Params[0].Type()) {
+		if (w.s == "[" || w.s == ",") && len(w.fn.Params) >= 1 && isWriterCallbackType(w.fn.Params[len(w.fn.Params)-1].Type()) {
 			prov = w.fn
 		}
 	}
@@ -491,7 +569,7 @@ func (c *Ctx) readerRules() {
 		// the pre-repair shape: separators written in the loop body itself
 		sepInLoop := false
 		for _, w := range writes {
-			if w.fn == rd && w.s == "," && inLoop(w.in.Block()) {
+			if w.s == "," && inLoopIP(w.in) {
 				sepInLoop = true
 				c.bad(rule, construct, c.ipos(w.in), "a separator is written in the batch loop regardless of whether the element produced output (notifications produce none): '[,{…}]' / '[{…},]'")
 			}
@@ -502,8 +580,9 @@ func (c *Ctx) readerRules() {
 		return
 	}
 	okAll := true
+	cbParam := prov.Params[len(prov.Params)-1]
 	// (a) inside the provider: flag-selected '[' / ',' , flag set, then the callback
-	var flag ssa.Value
+	var flag interface{}
 	var openW, sepW, cbCall ssa.Instruction
 	allInstrs(prov, func(in ssa.Instruction) {
 		if ci, ok := in.(ssa.CallInstruction); ok {
@@ -515,24 +594,34 @@ func (c *Ctx) readerRules() {
 					sepW = in
 				}
 			}
-			if ci.Common().Value == ssa.Value(prov.Params[0]) {
+			if ci.Common().Value == ssa.Value(cbParam) {
 				cbCall = in
 			}
 		}
 	})
+	flagLoad := func(v ssa.Value) (interface{}, bool) {
+		ld, ok := v.(*ssa.UnOp)
+		if !ok || ld.Op != token.MUL {
+			return nil, false
+		}
+		if b, isB := ld.Type().Underlying().(*types.Basic); !isB || b.Kind() != types.Bool {
+			return nil, false
+		}
+		return c.locKey(ld.X), true
+	}
 	if openW == nil || sepW == nil || cbCall == nil {
 		okAll = false
 		c.bad(rule, construct, p.pos(prov.Pos()), "the framing provider does not write both '[' and ',' and then invoke the element writer")
 	} else {
-		// flag: captured bool tested by the If that separates the two writes
+		// flag: boolean variable tested by the If that separates the two writes
 		for _, cf := range expandConds(impliedConds(sepW.Block())) {
-			if ld, ok := cf.Cond.(*ssa.UnOp); ok && ld.Op == token.MUL && cf.True {
-				flag = c.P.canonVar(ld.X)
+			if k, ok := flagLoad(cf.Cond); ok && cf.True {
+				flag = k
 			}
 		}
 		openUnderNot := false
 		for _, cf := range expandConds(impliedConds(openW.Block())) {
-			if ld, ok := cf.Cond.(*ssa.UnOp); ok && ld.Op == token.MUL && !cf.True && c.P.canonVar(ld.X) == flag {
+			if k, ok := flagLoad(cf.Cond); ok && !cf.True && k == flag {
 				openUnderNot = true
 			}
 		}
@@ -543,7 +632,7 @@ func (c *Ctx) readerRules() {
 			// flag set true before the callback, on every path
 			setTrue := func(in ssa.Instruction) bool {
 				st, ok := in.(*ssa.Store)
-				if !ok || c.P.canonVar(st.Addr) != flag {
+				if !ok || c.locKey(st.Addr) != flag {
 					return false
 				}
 				k, ok := st.Val.(*ssa.Const)
@@ -557,13 +646,27 @@ func (c *Ctx) readerRules() {
 				okAll = false
 				c.bad(rule, construct, c.ipos(cbCall), "an element can be written without '[' or ',' in front of it")
 			}
-			// (b) in the parent: ']' only under flag, and on every path from the loop exit to the return on the batch path
+			// nothing else clears the flag once set
+			regInstrs(func(in ssa.Instruction) {
+				st, ok := in.(*ssa.Store)
+				if !ok || c.locKey(st.Addr) != flag || setTrue(in) {
+					return
+				}
+				if fa, isF := st.Addr.(*ssa.FieldAddr); isF && isFreshAlloc(fa.X) {
+					return
+				}
+				if inLoopIP(in) || in.Parent() == prov {
+					okAll = false
+					c.bad(rule, construct, c.ipos(in), "the 'something already written' flag is reset while the batch is being served")
+				}
+			})
+			// (b) ']' only under flag, and on every path from the loop to the end of the batch
 			var closeW []ssa.Instruction
 			for _, w := range writes {
 				if w.s == "]" {
 					closeW = append(closeW, w.in)
 				}
-				if w.fn == rd && (w.s == "[" || w.s == ",") {
+				if w.fn != prov && (w.s == "[" || w.s == ",") {
 					okAll = false
 					c.bad(rule, construct, c.ipos(w.in), "array framing is also written directly, outside the framing provider")
 				}
@@ -574,8 +677,8 @@ func (c *Ctx) readerRules() {
 			}
 			for _, cw := range closeW {
 				under := false
-				for _, cf := range expandConds(impliedConds(cw.Block())) {
-					if ld, ok := cf.Cond.(*ssa.UnOp); ok && ld.Op == token.MUL && cf.True && c.P.canonVar(ld.X) == flag {
+				for _, cf := range expandConds(impliedCondsIP(cw.Block(), 0)) {
+					if k, ok := flagLoad(cf.Cond); ok && cf.True && k == flag {
 						under = true
 					}
 				}
@@ -583,26 +686,30 @@ func (c *Ctx) readerRules() {
 					okAll = false
 					c.bad(rule, construct, c.ipos(cw), "']' is written although nothing may have been emitted (an all-notification batch must produce an empty reply)")
 				}
+				if inLoopIP(cw) {
+					okAll = false
+					c.bad(rule, construct, c.ipos(cw), "']' is written inside the batch loop")
+				}
 			}
-			// from the loop (dispatcher call) every path to a return passes the flag test that guards ']'
+			// from the loop (dispatcher call) every path to the end passes the flag test that guards ']'
 			flagTest := func(in ssa.Instruction) bool {
 				iff, ok := in.(*ssa.If)
 				if !ok {
 					return false
 				}
-				ld, ok := iff.Cond.(*ssa.UnOp)
-				return ok && ld.Op == token.MUL && c.P.canonVar(ld.X) == flag
+				k, ok := flagLoad(iff.Cond)
+				return ok && k == flag && in.Parent() != prov
 			}
 			for _, dsp := range loopDisp {
-				if ret := reachFrom(dsp, isReturn, flagTest); ret != nil {
+				if ret := reachFromUp(dsp, isReturn, flagTest); ret != nil {
 					okAll = false
 					c.bad(rule, construct, c.ipos(ret), "the batch loop can return without reaching the closing bracket: the array is left unterminated")
 				}
 			}
 			// error replies inside the loop must not return either
-			allInstrs(rd, func(in ssa.Instruction) {
-				if c.isErrFnCall(in) && inLoop(in.Block()) {
-					if ret := reachFrom(in, isReturn, flagTest); ret != nil {
+			regInstrs(func(in ssa.Instruction) {
+				if c.isErrFnCall(in) && inLoopIP(in) {
+					if ret := reachFromUp(in, isReturn, flagTest); ret != nil {
 						okAll = false
 						c.bad(rule, construct, c.ipos(ret), "an error element inside the batch aborts the array without the closing bracket")
 					}
@@ -610,12 +717,9 @@ func (c *Ctx) readerRules() {
 			})
 		}
 	}
-	// (c) every emitter inside the loop is given the framing provider
-	allInstrs(rd, func(in ssa.Instruction) {
-		if !inLoop(in.Block()) {
-			return
-		}
-		if !(isDisp(in) || c.isErrFnCall(in)) {
+	// (c) every emitter executed inside the loop is given the framing provider
+	regInstrs(func(in ssa.Instruction) {
+		if !(isDisp(in) || c.isErrFnCall(in)) || !inLoopIP(in) {
 			return
 		}
 		ci := in.(ssa.CallInstruction)
@@ -624,14 +728,11 @@ func (c *Ctx) readerRules() {
 			if !isWriterProviderType(a.Type()) {
 				continue
 			}
-			var lv []ssa.Value
-			leaves(a, map[ssa.Value]bool{}, &lv)
-			for _, l := range lv {
-				if mc, ok := l.(*ssa.MakeClosure); ok && mc.Fn == ssa.Value(prov) {
-					uses = true
-				} else {
+			fs := c.funcsOf(a)
+			uses = len(fs) > 0
+			for _, f := range fs {
+				if f != prov {
 					uses = false
-					break
 				}
 			}
 		}
@@ -639,52 +740,6 @@ func (c *Ctx) readerRules() {
 			okAll = false
 			c.bad(rule, construct, c.ipos(in), "an emitter inside the batch loop writes through the raw writer instead of the framing provider: its element appears without '[' / ',' in front of it")
 		}
-	})
-	// (c') emitters reached through helpers/closures called from the loop
-	allInstrs(rd, func(in ssa.Instruction) {
-		call, ok := in.(*ssa.Call)
-		if !ok || !inLoop(in.Block()) {
-			return
-		}
-		g := staticCallee(call)
-		if g == nil || !p.allFns[g] || g == r.FnDisp || g == prov {
-			return
-		}
-		allInstrs(g, func(x ssa.Instruction) {
-			if !(isDisp(x) || c.isErrFnCall(x)) {
-				return
-			}
-			for _, a := range x.(ssa.CallInstruction).Common().Args {
-				if !isWriterProviderType(a.Type()) {
-					continue
-				}
-				src := a
-				if prm, ok := a.(*ssa.Parameter); ok {
-					for i, q := range g.Params {
-						if q == prm && i < len(call.Common().Args) {
-							src = call.Common().Args[i]
-						}
-					}
-				}
-				if ld, ok := src.(*ssa.UnOp); ok && ld.Op == token.MUL {
-					if cv := c.P.canonVar(ld.X); cv != ld.X {
-						src = &ssa.UnOp{Op: token.MUL, X: cv}
-					}
-				}
-				var lv []ssa.Value
-				leaves(src, map[ssa.Value]bool{}, &lv)
-				good := len(lv) > 0
-				for _, l := range lv {
-					if mc, ok := l.(*ssa.MakeClosure); !ok || mc.Fn != ssa.Value(prov) {
-						good = false
-					}
-				}
-				if !good {
-					okAll = false
-					c.bad(rule, construct, c.ipos(x), fmt.Sprintf("a helper called from the batch loop (%s) emits through the raw writer instead of the framing provider: its element appears without '[' / ',' in front of it", fname(g)))
-				}
-			}
-		})
 	})
 	if okAll {
 		c.ok(rule, construct, p.pos(prov.Pos()), "lazy framing provider used by every emitter in the loop; ']' iff something was emitted; no abort of the array")
@@ -1096,13 +1151,13 @@ func (c *Ctx) registrarRule(rule string) {
 	RULE := rule
 	n := 0
 		// channel registrar: success edge must not reach a reply
-		allInstrs(d, func(in ssa.Instruction) {
+		c.P.coneInstrs(d, func(in ssa.Instruction) {
 			if !c.isChanRegistrarCall(in) {
 				return
 			}
 			n++
 			call := in.(*ssa.Call)
-			construct := fmt.Sprintf("%s: channel registration", fname(d))
+			construct := fmt.Sprintf("%s: channel registration", fname(in.Parent()))
 			var okBranch *ssa.BasicBlock
 			for _, ref := range transitiveUses(call) {
 				bo, ok := ref.(*ssa.BinOp)
@@ -1123,7 +1178,7 @@ func (c *Ctx) registrarRule(rule string) {
 				c.bad(RULE, construct, c.ipos(call), "the registrar's error is not tested: a channel result is announced by the forwarder and answered again here")
 				return
 			}
-			if w := reachFromBlock(okBranch, isReply, nil); w != nil {
+			if w := reachFromBlockUp(okBranch, isReply, nil); w != nil {
 				c.bad(RULE, construct, c.ipos(w), "after a successful channel registration (the forwarder sends the response) a second reply is emitted")
 			} else {
 				c.ok(RULE, construct, c.ipos(call), "success path returns without another reply")
